@@ -58,30 +58,41 @@ class Enum:
         if self.repr:
             lines.append(f"#[repr({self.repr})]")
         lines.append(f"pub enum {self.name} {{")
-        for vn, vv in self.variants:
+        for v in self.variants:
+            vn, vv = v[0], v[1]
+            cfg = v[2] if len(v) > 2 else None
+            if cfg == "off":
+                lines.append('    #[cfg(feature = "test123")]')
+            elif cfg == "on":
+                lines.append('    #[cfg(not(feature = "test123"))]')
             lines.append(f"    {vn} = {hexlit(vv)},")
         lines.append("}")
         return "\n".join(lines)
 
+    def active(self):
+        """variants present after cfg evaluation (the corpus crates never enable feature test123)"""
+        return [(v[0], v[1]) for v in self.variants if (v[2] if len(v) > 2 else None) != "off"]
+
     # spec helpers emitted next to the annotated expansion
     def spec_fns(self):
-        arms = ", ".join(f"{self.name}::{vn} => {hexlit(vv)}" for vn, vv in self.variants)
-        conds = " || ".join(f"x == {hexlit(vv)}" for _, vv in self.variants) or "false"
+        arms = ", ".join(f"{self.name}::{vn} => {hexlit(vv)}" for vn, vv in self.active())
+        conds = " || ".join(f"x == {hexlit(vv)}" for _, vv in self.active()) or "false"
         return (
             f"pub const fn discr_{self.name}(e: {self.name}) -> u128 {{ match e {{ {arms} }} }}\n"
             f"pub const fn is_discr_{self.name}(x: u128) -> bool {{ {conds} }}\n"
         )
 
     def from_discr_fn(self):
-        arms = ", ".join(f"{hexlit(vv)} => {self.name}::{vn}" for vn, vv in self.variants)
+        arms = ", ".join(f"{hexlit(vv)} => {self.name}::{vn}" for vn, vv in self.active())
         return (f"pub fn from_discr_{self.name}(x: u128) -> {self.name} {{ match x {{ {arms}, "
                 f"_ => panic!(\"replay: not a discriminant\") }} }}\n")
 
     def arbitrary_impl(self):
-        n = len(self.variants)
+        act = self.active()
+        n = len(act)
         idx_ty = "u8" if n <= 256 else "u16"
         arms = []
-        for i, (vn, _) in enumerate(self.variants):
+        for i, (vn, _) in enumerate(act):
             pat = "_" if i == n - 1 else str(i)
             arms.append(f"{pat} => {self.name}::{vn}")
         return (f"impl kani::Arbitrary for {self.name} {{ fn any() -> Self {{ match kani::any::<{idx_ty}>() {{ "
